@@ -73,6 +73,8 @@ def qapsplit():
     :return: (maximum qap size, maximum input block size) encountered
     """
     global eqs, blocks
+    eqs = dict()    # start afresh: the proving step may run more than once in a process
+    blocks = dict()
 
     fns = dict()
     extblocks = set()
